@@ -1,6 +1,8 @@
 import A2Verif.Lemmas.ToolState
 import A2Verif.Lemmas.MinifyState
 import A2Verif.Gen.HashSites
+import A2Verif.Gen.ClockSites
+import A2Verif.Model.Determinism
 /-!
 # C20, incidental state — the tool objects and early exits from hash iterations
 
@@ -114,5 +116,48 @@ theorem capped_accumulation_order_matters :
 
 /-- without a cap (cap ≥ number of elements) the result is the same set in every order — on the witness -/
 example : (capInsert 2 [] [0, 1]).Perm (capInsert 2 [] [1, 0]) := by decide
+
+/-! ## the wall clock
+
+"… apart from fields that by design record the current time."  Writing a stamp reads the clock by design; DECODING or
+rendering a stamp that is already on the disk must not.  `Gen.ClockSites` (regenerated from the working tree) lists every
+read of the wall clock in `src/`; the automatic class `stamp` needs an enclosing function that produces a value to be
+written (`pack_*`, `create*`, `format`, `mk*`), anything else a reviewed entry. -/
+
+/-- **Clock reads on the current tree**: every read of the wall clock in `src/` sits in a function that produces a stamp
+to be written (or has a reviewed entry), none is unclassified.  A new clock read in a decoding / rendering path
+(`unpack_time`, `fmt`, `to_json`, `tree`, …) makes this fail. -/
+theorem clock_reads_only_stamp_current_tree :
+    Gen.ClockSites.unclassified = [] ∧
+    Gen.ClockSites.sites.all (fun r => r.2.2.1 != 99) = true ∧
+    Gen.ClockSites.sites.length = Gen.ClockSites.siteCount ∧ 0 < Gen.ClockSites.siteCount := by
+  decide +kernel
+
+open A2Verif.Model.Determinism in
+/-- why a clock read in the decoder matters: with the "not after today" window the SAME stamp (30-SEP-26) decodes to
+2026 on a machine whose local date is 2026-10-01 and to 1926 on one whose local date is 2026-09-29 -/
+theorem sliding_century_depends_on_clock :
+    ¬ ∀ (t₁ t₂ : Nat × Nat × Nat) (yy mm dd : Nat), centurySliding t₁ yy mm dd = centurySliding t₂ yy mm dd := by
+  intro h
+  have := h (2026, 10, 1) (2026, 9, 29) 26 9 30
+  revert this
+  decide
+
+open A2Verif.Model.Determinism in
+/-- … and why no test with sane stamps sees it: for every stamp that, read as 20yy, is not after the reader's date (and
+for every yy ≥ 79) the window decodes exactly what the pinned code decodes -/
+theorem sliding_century_agrees_on_past_stamps (today : Nat × Nat × Nat) (yy mm dd : Nat)
+    (h : 79 ≤ yy ∨ dateLe (2000 + yy, mm, dd) today = true) :
+    centurySliding today yy mm dd = centuryPinned yy := by
+  unfold centurySliding centuryPinned
+  rcases h with h | h
+  · have : ¬ yy < 79 := by omega
+    simp [this]
+  · by_cases hy : yy < 79 <;> simp [hy, h]
+
+open A2Verif.Model.Determinism in
+/-- the pinned decoder has no clock argument: the century is a function of the stored year -/
+example : centuryPinned 26 = 2026 ∧ centuryPinned 78 = 2078 ∧ centuryPinned 79 = 1979 ∧ centuryPinned 99 = 1999 ∧ centuryPinned 0 = 2000 := by
+  decide
 
 end A2Verif.C20
